@@ -124,6 +124,18 @@ NEEDS = {
  "C17-j1": ("json_num_option through a hand-written visitor without visit_unit", "null in the Option adapter behind #[serde(flatten)] / an untagged enum (serde replays buffered null as unit)"),
  "C17-j2": ("parser error message slices its input at byte 64", "string longer than 64 bytes with a multi-byte character straddling byte 64 on one of two early error paths: panic"),
  "C17-j3": ("json_num limit skipped for zero", "json_num, zero mantissa, |scale| beyond the limit"),
+ "C04-k1": ("plain notation of pure fractions through a run-time format width (16-bit since rustc 1.87)", "plain notation, scale >= 65536: panic"),
+ "C04-k2": ("write_plain_string streams zeros in 4096-byte pages and drops one full page", "plain notation with scale <= -4096"),
+ "C04-k3": ("zero filtered out of the trailing-zero count in Display", "zero with scale <= -16, compared on scale"),
+ "C12-k1": ("`&1 / &x` divides the wrong way round", "both operands by reference (&1u8 / &x): returns x"),
+ "C12-k2": ("integer / &BigDecimal shortcut through a truncating to_i128", "`1 / &x` with 1 < |x| < 2, x not an integer"),
+ "C12-k3": ("operands longer than 2(p+3) digits truncated to p+3 digits", "terminating reciprocal whose power of ten is written into the coefficient (5^23 * 10^9 as 26 digits) at p=9/10, rounding away from zero; about 2 per 900000 random inputs"),
+ "C14-k1": ("hand-written Clone whose clone_from copies the digits but not the scale", "a converted float stored with clone_from / clone_from_slice into an existing value of another scale, then to_f64"),
+ "C14-k2": ("u128 product fast path guarded by a floating point log2 sum <= 128.0", "23 positive and 23 negative f64 whose exact decimal integer is within 1e-14 of 2^128 (just above 2^128/10^33..35)"),
+ "C14-k3": ("BigDecimalRef::abs() gives zero a Plus sign; to_f64's zero test looks at the sign (two sites)", "to_f64 on zero.to_ref().abs() with scale <= -309: NaN"),
+ "C17-k1": ("deserialize_in_place override never resets the scale for integer tokens", "Deserialize::deserialize_in_place into a value with non-zero scale, integer token"),
+ "C17-k2": ("exponent fields longer than 20 characters rejected", "legal JSON numbers with many leading zeros in the exponent (1.5e+000000000000000000002)"),
+ "C17-k3": ("json_num_option visitor without visit_unit", "null behind #[serde(flatten)] / untagged enum"),
 }
 OUT_OF_SCOPE = {"C04-j3"}
 def sh(cmd, **kw):
@@ -164,7 +176,7 @@ for name in sorted(os.listdir(os.path.join(HERE, "seeded"))):
     print(name, verdict, rule, "run", run, f"{dt:.0f}s", flush=True)
 if not only and not os.environ.get("RUN_SEEDED_DRY"):
     with open(os.path.join(HERE, "SENSITIVITY.md"), "w") as f:
-        f.write("# Sensitivity: seeded changes vs. checks\n\nEach change compiles, passes the 861-test suite, and breaks its property (demonstration in `seeded/<id>/demo.rs`, confirmation in `confirmation.txt`). Written by forty sub-agents in six rounds that saw only the property text (rounds 2-3: asked for subtle changes that random testing would most likely miss; round 4: changes confined to shared helper code outside the property's own files; round 5: changes that manifest only through the environment - a failing caller-supplied writer, a platform-dependent exp2 / powi result, a serde peer; round 6: told to assume very thorough checking and to find what would still slip through). Regenerate with `tools/run_seeded.py` (applies each patch to /repo, runs the quick check, reverts).\n\n| seeded change | property | quick check | rule that fired | first failing run | what it needs |\n|---|---|---|---|---|---|\n")
+        f.write("# Sensitivity: seeded changes vs. checks\n\nEach change compiles, passes the 861-test suite, and breaks its property (demonstration in `seeded/<id>/demo.rs`, confirmation in `confirmation.txt`). Written by forty-four sub-agents in seven rounds that saw only the property text (rounds 2-3: asked for subtle changes that random testing would most likely miss; round 4: changes confined to shared helper code outside the property's own files; round 5: changes that manifest only through the environment - a failing caller-supplied writer, a platform-dependent exp2 / powi result, a serde peer; rounds 6-7: told to assume very thorough checking - round 7 was given a description of the kinds of checks in place - and to find what would still slip through). Regenerate with `tools/run_seeded.py` (applies each patch to /repo, runs the quick check, reverts).\n\n| seeded change | property | quick check | rule that fired | first failing run | what it needs |\n|---|---|---|---|---|---|\n")
         for (name, prop, verdict, rule, run) in rows:
             f.write(f"| {name} | {prop} | {verdict} | {rule} | {run} | {NEEDS.get(name, ('',''))[1]} |\n")
         caught = sum(1 for r in rows if r[2] == "CAUGHT")
